@@ -4,6 +4,7 @@ P15 == {<<1, 5>>}
 P12 == {<<1, 2>>}
 P3 == {<<1, 5>>, <<1, 2>>, <<1, 3>>}
 P2 == {<<1, 5>>, <<1, 2>>}
+P4 == P3 \cup {<<2, 5>>}        \* a proportion a / b with a > 1 (2 of 5 channels: not more than it)
 W7 == {7}
 W4 == {3, 4, 6, 7}
 W9 == 1..9
